@@ -486,6 +486,24 @@ pub mod knobs {
         }
     }
 
+    static PAGE_POOL_POISON: std::sync::atomic::AtomicU8 = std::sync::atomic::AtomicU8::new(0);
+
+    /// "The contents of the page are undefined" (`PagePool::alloc`): with a non-zero byte every
+    /// page handed out by the pool is filled with it first, so that code relying on what a
+    /// fresh or recycled buffer happens to hold shows up in every run. 0 = off.
+    pub fn set_page_pool_poison(byte: u8) {
+        PAGE_POOL_POISON.store(byte, Ordering::SeqCst);
+    }
+
+    pub(crate) fn poison_page(ptr: *mut u8) {
+        let byte = PAGE_POOL_POISON.load(Ordering::Relaxed);
+        if byte != 0 {
+            // SAFETY: `ptr` points at a page of PAGE_SIZE bytes just taken off a free list:
+            // nobody else refers to it.
+            unsafe { std::ptr::write_bytes(ptr, byte, crate::io::PAGE_SIZE) };
+        }
+    }
+
     pub fn set_rollback_segment_size(bytes: u64) {
         ROLLBACK_SEGMENT_SIZE.store(bytes, Ordering::SeqCst);
     }
